@@ -22,7 +22,7 @@ NAME = "lazyinit"
 RULE = {
     "C19": "one run = one target (fresh LazyCryptContext with/without onload, shipped preset, multi-backend hasher, lazy base64 "
            "engine, unloaded registry name, context record caches, digest-info cache, or post-initialisation shared use with a "
-           "non-reentrant crypt(3) model) x 2-3 threads' first calls x one seeded schedule (sticky walk / PCT / hot-spot / uniform; "
+           "non-reentrant crypt(3) model) x 2-3 threads' first calls x one seeded schedule (sticky walk / PCT / hot-spot / uniform / park-one-thread-mid-operation; "
            "pre-emption at every source line of /repo code, opcode level in hot functions in the thorough tier); each thread's "
            "outcomes are compared with those of the same calls made sequentially in another fresh process; non-trivial = the schedule "
            "switched threads at least once while >=2 threads were still running; distinct = distinct sequences of "
@@ -42,7 +42,7 @@ ASSUMPTIONS = {"*": ["pre-emption only between two Python source lines (bytecode
                      "atomicity beyond one bytecode, so every explored interleaving is feasible",
                      "the single-thread outcome (same calls, fresh process) is the specification"]}
 
-HOT = ["_lazy_init", "__getattribute__", "set_backend", "_set_backend", "_stub_requires_backend", "_set_calc_checksum_backend",
+HOT = ["list_crypt_handlers", "_lazy_init", "__getattribute__", "set_backend", "_set_backend", "_stub_requires_backend", "_set_calc_checksum_backend",
        "_calc_checksum_backend", "_calc_checksum", "get_crypt_handler", "register_crypt_handler", "get_record",
        "_get_record_list", "identify_record", "lookup_hash", "_finalize_backend_mixin", "update_mixin_classes", "__get__",
        "_load_backend_mixin", "_get_or_identify_record", "_load_backend_os_crypt", "_load_backend_builtin", "__init__",
@@ -142,6 +142,10 @@ def generate(rng, prop, tier):
         mod, name, schemes = rng.choice(PRESETS)
         params = {"module": mod, "name": name}
         threads = [_ctx_calls(rng, schemes, rng.randint(1, 3), allow_hash=False, cats=(None, "admin")) for _ in range(nthreads)]
+        if rng.random() < 0.4:
+            # one thread works on the registry meanwhile (a preset's onload callback may enumerate or query it)
+            threads[-1] = [rng.choice([["get_crypt_handler", rng.choice(REGISTRY_NAMES)], ["list_handlers", ""], ["hash_attr", rng.choice(REGISTRY_NAMES)]])
+                           for _ in range(rng.randint(1, 2))]
     elif t == "T3":
         h = rng.choice(BACKEND_HASHERS)
         params = {"hasher": h, "derived": rng.random() < 0.25}
@@ -166,16 +170,19 @@ def generate(rng, prop, tier):
         # siblings: names hosted by the same, not yet imported, handler module -- the second thread asks for its
         # name while the first is in the middle of importing the module they share
         names = rng.choice(REGISTRY_SIBLINGS) if rng.random() < 0.6 else [name]
-        params = {"name": names[0], "names": names}
+        # entries loaded before the threads start: the registry is then a populated container other threads keep adding to
+        params = {"name": names[0], "names": names, "preload": rng.sample(REGISTRY_NAMES, rng.choice([0, 0, 1, 3])) }
         for _ in range(nthreads):
             calls = []
             for _ in range(rng.randint(1, 2)):
                 name = rng.choice(names)
                 spelled = rng.choice([name, name, name, name.replace("_", "-"), name.upper()])
                 k = rng.choice(["get_crypt_handler", "hash_attr", "new_context", "get_crypt_handler"])
-                if name in KNOWN and rng.random() < 0.35:
+                if rng.random() < 0.15:
+                    k = "list_handlers"  # enumerating the registry while other threads are loading entries into it
+                elif name in KNOWN and rng.random() < 0.35:
                     k = "reg_verify"  # first import + first backend choice + lazily resolved wrapped handler, all in the threads
-                calls.append([k, spelled if rng.random() < 0.3 and k not in ("hash_attr", "reg_verify") else name])
+                calls.append([k, spelled if rng.random() < 0.3 and k not in ("hash_attr", "reg_verify", "list_handlers") else name])
             threads.append(calls)
     elif t == "T6":
         schemes = rng.sample(CTX_SCHEMES, rng.randint(1, 4))
@@ -217,14 +224,17 @@ def generate(rng, prop, tier):
                 s = rng.choice(schemes)
                 calls.append(rng.choice([["t8_roundtrip", s, f"pw-{i}-{j}"], ["t8_verify", s], ["t8_verify_wrong", s], ["t8_ctx_roundtrip", f"pw{i}{j}"]]))
             threads.append(calls)
-    strategy = rng.choices(["sticky", "pct", "hotspot", "uniform"], [40, 25, 25, 10])[0]
+    strategy = rng.choices(["sticky", "pct", "hotspot", "uniform", "park"], [30, 20, 22, 8, 20])[0]
     sparams = {}
     if strategy == "sticky":
         sparams["p"] = rng.choice([0.005, 0.01, 0.03, 0.03, 0.1, 0.3])
     elif strategy == "pct":
         sparams = {"depth": rng.choice([1, 2, 2, 3]), "est_len": rng.choice([50, 150, 400, 1000, 3000])}
+    elif strategy == "park":
+        sparams = {"victim": rng.randrange(nthreads), "p": rng.choice([0.0, 0.0, 0.01]),
+                   "at": rng.choice([rng.randint(1, 6), rng.randint(1, 40), rng.randint(1, 400), rng.randint(1, 3000)])}
     elif strategy == "hotspot":
-        sparams = {"plan": [[rng.choice(HOT[:17]), rng.randint(1, 12)] for _ in range(rng.randint(1, 3))],
+        sparams = {"plan": [[rng.choice(HOT[:18]), rng.randint(1, 12)] for _ in range(rng.randint(1, 3))],
                    "p": rng.choice([0.0, 0.005, 0.02])}
     # pre-emption inside module bodies of imports made by the threads (cooperative import locks)
     preempt_imports = rng.random() < {"T5": 0.7, "T1": 0.25, "T2": 0.25, "T6": 0.25}.get(t, 0.1)
@@ -328,6 +338,10 @@ def build_env(cfg):
                 env["via"] = getattr(passlib.hash, e[4:])
         elif t == "T5":
             import passlib.hash  # noqa: F401  (the proxy module only)
+            from passlib.registry import get_crypt_handler
+
+            for n in p.get("preload", ()):
+                get_crypt_handler(n)
         elif t in ("T6", "T8"):
             from passlib.context import CryptContext
 
@@ -470,6 +484,11 @@ def _call(env, k, spec):
 
         h = get_crypt_handler(spec[1])
         return ["obj", h.name, id(h)]
+    if k == "list_handlers":
+        from passlib.registry import list_crypt_handlers
+
+        names = list_crypt_handlers()
+        return [len(names), names[:3], names[-2:]]
     if k == "reg_verify":
         from passlib.registry import get_crypt_handler
 
@@ -644,6 +663,8 @@ def execute(program, ctx):
         if any(s[2] == "<module>" for s in sched.switch_sites):
             ctx.probe("preempted_inside_module_body")
     ctx.extra["strategies"] = {cfg["strategy"]: 1}
+    if cfg["strategy"] == "park" and sched.park_hits:
+        ctx.probe("victim_parked_mid_operation")
     ctx.extra["targets"] = {cfg["target"]: 1}
     ctx.extra["hot_hits"] = dict(sched.hot_hits)
     ctx.extra["switch_sites"] = sorted({f"{s[2]}+{s[3]}" for s in sched.switch_sites})
